@@ -303,6 +303,50 @@ def run(shard, rec, rng):
                 continue
             if outside:
                 rec.violation("C14/open-outside-root", f"open({outside[0]!r}) -> {outside[1]!r} while serving {c!r}; {case}", case, monitor="audit-hook")
+        # ---- history: the export table of a middleware that has answered requests is edited in place (an entry
+        # replaced by one for another root); from then on only the new root is served
+        rec.case()
+        rec.nontrivial(("exports-replaced",))
+        newroot = os.path.join(top, "newroot")
+        os.makedirs(newroot)
+        with open(os.path.join(newroot, "n.txt"), "w") as f:
+            f.write("NEW-ROOT-FILE")
+        idx_static = [k_ for k_, _ in app.exports].index("/static")
+        app.exports[idx_static] = ("/static", app.get_directory_loader(newroot))
+        served = {}
+        for name_ in ("a.txt", "n.txt", "sub/b.txt"):
+            env = create_environ()
+            env["PATH_INFO"] = "/static/" + name_
+            it, st, hd = run_wsgi_app(app, env)
+            served[name_] = (st[:3], b"".join(it))
+            if hasattr(it, "close"):
+                it.close()
+        rec.observe("middleware_exports_replaced_after_use")
+        if served["n.txt"] != ("200", b"NEW-ROOT-FILE") or served["a.txt"][0] == "200" or served["sub/b.txt"][0] == "200":
+            rec.violation("C14/withdrawn-root-still-served", f"after the /static export was replaced by another directory: {served!r}", {"function": "static-file", "request_path": "exports replaced"}, monitor="response-body")
+        # ---- history: a relative trusted directory is resolved against the working directory of the moment
+        rec.case()
+        rec.nontrivial(("relative-directory-chdir",))
+        cwd0 = os.getcwd()
+        try:
+            trees = {}
+            for nm in ("cwdA", "cwdB"):
+                trees[nm] = os.path.join(top, nm)
+                os.makedirs(os.path.join(trees[nm], "rel"))
+                with open(os.path.join(trees[nm], "rel", "a.txt"), "w") as f:
+                    f.write("FILE-OF-" + nm)
+            got = []
+            for nm in ("cwdA", "cwdB", "cwdA"):
+                os.chdir(trees[nm])
+                resp = utils.send_from_directory("rel", "a.txt", create_environ())
+                body = b"".join(resp.response) if resp.response else b""
+                resp.close()
+                got.append((nm, body))
+            rec.observe("relative_directory_after_chdir")
+            if any(body != ("FILE-OF-" + nm).encode() for nm, body in got):
+                rec.violation("C14/file-outside-current-root-served", f"send_from_directory('rel', 'a.txt') after chdir: {got!r}", {"function": "static-file", "request_path": "relative directory + chdir"}, monitor="response-body")
+        finally:
+            os.chdir(cwd0)
     finally:
         shutil.rmtree(top, ignore_errors=True)
     # ---- secure_filename
